@@ -468,3 +468,147 @@ def call(w, cfg):
             w.ensure('mass within the round-off threshold otherwise', w.And(w.ge(after, before), w.le(after, before + bound)))
     sp0 = all_specs(prog)[0]
     w.canary('canary: reactant consumed = X * feed + 1', w.eq(u[sp0.r] - gu[sp0.r], sp0.X * u[sp0.r] + 1))
+
+
+# --------------------------------------------------------------------------- 3. force_reaction
+
+def force_configs(tier):
+    out = []
+    for tagged in (False, True):
+        progs = programs(tier, tagged)
+        names = ['single3[Water]', 'single3[Ethanol]', 'parallel[a>b|b>c]'] if tier == 'quick' else list(progs)
+        for pname in names:
+            for mat, pkg, basis in [('s', 'P3', 'mol'), ('sv', 'P3', 'mol'), ('s', 'P3', 'wt'), ('nd', 'P3', 'mol')]:
+                if tier == 'quick' and (pname != 'single3[Water]' and (mat, basis) != ('s', 'mol')):
+                    continue
+                unit = _n_rxns(progs[pname]) >= 2
+                flows = 'sparse' if mat == 's' and (tagged or basis == 'wt' or unit) else 'all'
+                out.append({'name': f'{"tagged" if tagged else "plain"};{pname};{mat}:{pkg};{basis};{flows}' + (';unit' if unit else ''),
+                            'tagged': tagged, 'prog': progs[pname], 'mat': mat, 'pkg': pkg, 'basis': basis, 'unit': unit, 'flows': flows})
+    return out
+
+
+@group('C05/force_reaction', configs=force_configs, l0=True,
+       functions=['thermosteam.reaction._reaction:Reaction.force_reaction', 'thermosteam.functional:remove_negligible_negative_values',
+                  'thermosteam.reaction._reaction:as_material_array'])
+def force_reaction(w, cfg):
+    """force_reaction ignores feasibility (negative flows may remain) but must still be the stoichiometric update; the only
+    licence is to zero *negligible* negatives (|e| <= 1e-16 * max(sum|e|, 1))."""
+    W.reset_caches()
+    tagged, basis, kind, pkg = cfg['tagged'], cfg['basis'], cfg['mat'], cfg['pkg']
+    IDs = PKG[pkg]
+    chems = W.thermo(P3).chemicals
+    mw = _mw(IDs)
+    rows = weights(w, IDs)
+    prog, obj = make_program(w, cfg['prog'], basis, rows, mw, chems, tagged, unit_reactant=cfg.get('unit', False))
+    pattern = sparse_pattern(cfg['prog'], pkg, tagged) if cfg.get('flows') == 'sparse' else None
+    mat, read, feed, stream = make_material(w, kind, pkg, tagged, pattern=pattern)
+    pre = snapshot_rxn(obj)
+    stream_by_mass = kind == 's' and basis == 'wt'
+    u = _array_units(feed, mw, stream_by_mass)
+    e = spec_apply(prog, u)
+    obj.force_reaction(mat)
+    got = read()
+    gu = _array_units(got, mw, stream_by_mass)
+    S = sum([abs(e[k]) for k in e], 0.)
+    for k in e:
+        negligible = w.And(w.lt(e[k], 0.), w.eq(gu[k], 0.), w.Or(w.le(-e[k], 1e-16 * S), w.le(-e[k], 1e-16)))
+        w.ensure(f'flow[{k[0]},{k[1]}] = stoichiometric update (negligible negatives zeroed)', w.Or(w.eq(gu[k], e[k]), negligible))
+    feasible = w.And(*[w.ge(e[k], 0.) for k in e])
+    by_mass_units = stream_by_mass or (basis == 'wt')
+    for name, c in rows.items():
+        before = row_total(c, u, mw if by_mass_units else None)
+        after = row_total(c, gu, mw if by_mass_units else None)
+        w.ensure(f'{name} conserved', w.Implies(feasible, w.eq(after, before)))
+    w.ensure('reaction object unchanged', same_rxn(w, pre, snapshot_rxn(obj)))
+    sp0 = all_specs(prog)[0]
+    w.canary('canary: reactant consumed = X * feed + 1', w.eq(u[sp0.r] - gu[sp0.r], sp0.X * u[sp0.r] + 1))
+
+
+# --------------------------------------------------------------------------- 4. mol and wt basis give the same stream
+
+def basis_configs(tier):
+    out = []
+    for tagged in (False, True):
+        progs = programs(tier, tagged)
+        if tier == 'quick':
+            names = ['single3[Water]', 'single3[Methanol]', 'single2[Water>Ethanol]', 'parallel[a>b|b>c]', 'series[a>b;b>c]',
+                     'system[a>b;b>c]']
+        else:
+            names = list(progs)
+        for pname in names:
+            prog = progs[pname]
+            hows = ['copy']
+            if prog['kind'] == 'single': hows.append('setter')
+            for how in hows:
+                for direction in ('mol->wt', 'wt->mol'):
+                    for pkg in ('P3', 'Q3'):
+                        if pkg == 'Q3' and (tier == 'quick' and pname not in ('single3[Water]',)):
+                            continue
+                        if tier == 'quick' and how == 'setter' and direction == 'wt->mol':
+                            continue
+                        unit = _n_rxns(prog) >= 2
+                        out.append({'name': f'{"tagged" if tagged else "plain"};{pname};{how};{direction};{pkg}' + (';unit' if unit else ''),
+                                    'tagged': tagged, 'prog': prog, 'how': how, 'dir': direction, 'pkg': pkg, 'unit': unit})
+    return out
+
+
+def _rebase(obj, basis, how):
+    """The same reaction on the other basis, made by the real API."""
+    if isinstance(obj, tmo.ReactionSystem):
+        return tmo.ReactionSystem(*[_rebase(i, basis, how) for i in obj._reactions])
+    if how == 'setter':
+        new = obj.copy()
+        new.basis = basis
+        return new
+    return obj.copy(basis)
+
+
+@group('C05/basis', configs=basis_configs, l0=True,
+       functions=['thermosteam.reaction._reaction:set_reaction_basis', 'thermosteam.reaction._reaction:Reaction.copy',
+                  'thermosteam.reaction._reaction:Reaction.basis', 'thermosteam.reaction._reaction:as_material_array',
+                  'thermosteam.reaction._reaction:Reaction._rescale', 'thermosteam.reaction._reaction:ReactionSet._rescale',
+                  'thermosteam.base.dictionary_view:MassFlowDict'])
+def basis(w, cfg):
+    """A reaction and its copy on the other basis give the same stream; making the copy does not change the original;
+    converting back gives the original stoichiometry."""
+    W.reset_caches()
+    tagged, pkg = cfg['tagged'], cfg['pkg']
+    b0, b1 = cfg['dir'].split('->')
+    IDs = PKG[pkg]
+    chems = W.thermo(P3).chemicals
+    mw = _mw(IDs)
+    rows = weights(w, IDs)
+    prog, obj = make_program(w, cfg['prog'], b0, rows, mw, chems, tagged, unit_reactant=cfg.get('unit', False))
+    pre = snapshot_rxn(obj)
+    obj2 = _rebase(obj, b1, cfg['how'])
+    w.ensure('original unchanged by making the copy on the other basis', same_rxn(w, pre, snapshot_rxn(obj)))
+    back = _rebase(obj2, b0, 'copy')
+    w.ensure('converting back gives the original stoichiometry', same_rxn(w, pre, snapshot_rxn(back)))
+    pattern = sparse_pattern(cfg['prog'], pkg, tagged)
+    s1, read1, feed, _ = make_material(w, 's', pkg, tagged, name='m', pattern=pattern)
+    s2, read2, _, _ = make_material(w, 's', pkg, tagged, values=feed, pattern=pattern)
+    u = _array_units(feed, mw, b0 == 'wt')
+    e = spec_apply(prog, u)          # expected flows in the units of the original basis (same sign as in mol)
+    outcomes = []
+    for o, s in ((obj, s1), (obj2, s2)):
+        try:
+            o(s); outcomes.append('ok')
+        except InfeasibleRegion:
+            outcomes.append('infeasible')
+    w.note(outcomes=outcomes)
+    negative = w.Or(*[w.lt(e[k], 0.) for k in e])
+    if outcomes[0] != outcomes[1]:
+        w.ensure('outcomes differ only when a flow would be negative', negative)
+    elif outcomes[0] == 'ok':
+        g1, g2 = read1(), read2()
+        for k in g1:
+            w.ensure(f'flow[{k[0]},{k[1]}] same on both bases', w.Or(w.eq(g1[k], g2[k]), negative))
+        gu = _array_units(g1, mw, b0 == 'wt')
+        for k in e:
+            w.ensure(f'flow[{k[0]},{k[1]}] = stoichiometric update', w.Or(w.eq(gu[k], e[k]), negative))
+        k0 = all_specs(prog)[0].r
+        w.canary('canary: wt-basis result differs by 1', w.eq(g1[k0], g2[k0] + 1))
+    else:
+        w.ensure('InfeasibleRegion only if a flow would be negative', negative)
+        w.canary('canary: never infeasible', False)
